@@ -143,7 +143,56 @@ func (c *checker) buildCanon() *canon {
 	return cn
 }
 
-func (c *checker) finishG() {}
+// finishG: C07 — successive configurations of the agreed history differ by at
+// most one voting member and always keep a voter.
+func (c *checker) finishG() {
+	var idx []uint64
+	for i, g := range c.G {
+		if g.ty == LogConfiguration {
+			idx = append(idx, i)
+		}
+	}
+	sort.Slice(idx, func(i, j int) bool { return idx[i] < idx[j] })
+	for k, i := range idx {
+		cur := ParseCfg(c.G[i].payload)
+		if len(cur.Voters()) == 0 {
+			c.violate("C07", "committed-config-without-voter", c.G[i].seq, "configuration committed at index %d has no voter: %s", i, c.G[i].payload)
+		}
+		seenID, seenAddr := map[string]bool{}, map[string]bool{}
+		for _, sv := range cur {
+			if seenID[sv.ID] || seenAddr[sv.Addr] {
+				c.violate("C07", "committed-config-duplicate", c.G[i].seq, "configuration committed at index %d repeats an id or address: %s", i, c.G[i].payload)
+			}
+			seenID[sv.ID], seenAddr[sv.Addr] = true, true
+		}
+		if k == 0 {
+			continue
+		}
+		prev := ParseCfg(c.G[idx[k-1]].payload)
+		pv, cv := map[string]bool{}, map[string]bool{}
+		for _, v := range prev.Voters() {
+			pv[v] = true
+		}
+		for _, v := range cur.Voters() {
+			cv[v] = true
+		}
+		d := 0
+		for v := range pv {
+			if !cv[v] {
+				d++
+			}
+		}
+		for v := range cv {
+			if !pv[v] {
+				d++
+			}
+		}
+		c.cov("committed-config-pair-checked")
+		if d > 1 {
+			c.violate("C07", "committed-configs-differ-by-more-than-one-voter", c.G[i].seq, "configurations committed at index %d (%s) and %d (%s) differ by %d voting members", idx[k-1], c.G[idx[k-1]].payload, i, c.G[i].payload, d)
+		}
+	}
+}
 
 func (c *checker) finishFSM() {
 	// C02.2 no skip: between two consecutive indexes handed to one FSM there is
